@@ -478,7 +478,7 @@ var designRe = regexp.MustCompile(`\b(d\d{4})/`)
 
 // envFailureRe recognises build output caused by the environment (disk, memory, descriptors),
 // which must never be read as a diagnostic about the generated code.
-var envFailureRe = regexp.MustCompile(`no space left on device|cannot allocate memory|out of memory|signal: killed|too many open files|input/output error|resource temporarily unavailable`)
+var envFailureRe = regexp.MustCompile(`gocache/\S*: no such file or directory|go-build\S*: no such file or directory|no space left on device|cannot allocate memory|out of memory|signal: killed|too many open files|input/output error|resource temporarily unavailable`)
 
 func (c *Corpus) attribute(out string) {
 	by := map[string]*Design{}
